@@ -30,7 +30,8 @@ def prime():
 
 def gen(rng, idx, tier):
     pad = rng.choice(["rand", "rand", 0xFF, None])
-    ev = bustraffic.history(rng, pad=pad, all_defs=rng.random() < 0.6, multi_def_bias=True, repeat_seq=rng.random() < 0.4)
+    ev = bustraffic.history(rng, pad=pad, all_defs=rng.random() < 0.6, multi_def_bias=True, repeat_seq=rng.random() < 0.4,
+                            max_active=3 if rng.random() < 0.9 else 24, burst_fast=0 if rng.random() < 0.95 else rng.choice([17, 20, 33]))
     # one more listener is a single decoder object that receives every message through a format chosen per message
     # (frame-level or pre-assembled): what a format carries must not depend on what the decoder saw before
     mix = {}
@@ -63,6 +64,14 @@ def execute(plan):
     v = []
     log = []
     st = {"frames": 0, "fast_completed": 0, "single_decoded": 0, "whole_compared": 0}
+    # the history must be what the bus model produces: every fast-packet message is delivered as an in-order prefix
+    # of its frames (a plan that lost a first or a middle frame can only come from the minimiser)
+    chk = {}
+    for e in plan["events"]:
+        if e["k"] == "fast":
+            if e.get("i", 0) != len(chk.setdefault(e["m"], [])):
+                return {"violations": [], "digest": "invalid", "stats": {"invalid_plan": 1}, "nontrivial": False, "vtime": 0.0}
+            chk[e["m"]].append(e["i"])
     seen = {}
     admission = bool(kw.get("build_network_map") or kw.get("exclude_manufacturer_code") or kw.get("include_manufacturer_code"))
     last_first = {}
@@ -113,7 +122,9 @@ def execute(plan):
             m, exc = bus.feed_frame(mixed, mf, e["f"], ydts if mf.startswith("yd") else None)
             r = ("exc", type(exc).__name__) if exc is not None else msgs.key(m, iso=True)
             st["mixed_frame_level"] = st.get("mixed_frame_level", 0) + 1
-            if r != base:
+            # (a message that repeats the counter of an unfinished message is ambiguous: the two decoders may hold
+            # different leftovers of that unfinished message, because the mixed one may never have seen its frames)
+            if r != base and e.get("m") not in ambiguous and e.get("m") not in tainted:
                 v.append(viol("C07.disagree.ebyte.mixed", evno, "a decoder that receives each message through a different format "
                               "(this one frame-wise as %s) disagrees with a %s-only decoder at frame %d of %d of PGN %d src %d: %s vs %s" %
                               (mf, "EByte", e.get("i", 0), e.get("n", 1), e["f"][0], e["f"][1], _b(r), _b(base))))
